@@ -6,8 +6,11 @@
     tangential force through the regenerated quantity layer; the algebraic identities that turn the code's bending / contact /
     virtual-teeth expressions into the documented ones; the bending stress of spur and helical gears and the contact stress of a spur
     gear carried through the quantity layer step by step (module, face width, moduli, force in ANY units: the result is a Stress
-    whose SI magnitude is the documented expression).  _partial: the worm wheel's bending stress and the helical gear's contact stress
-    (transverse pressure angle through atan) are decided by the correspondence + the documented-formula search oracle only.  The three "is computable"
+    whose SI magnitude is the documented expression); likewise the helical gear's contact stress (transverse pressure angle
+    atan(tan 20deg / cos beta), face width b / cos beta) and the worm wheel's bending stress (normal pitch pi d_w sin(beta_w) / z,
+    effective face width min(b, 0.67 d_w) as the quantity comparison decides it).  Not covered by a theorem: the helical gear's
+    virtual teeth number fed to the Lewis interpolation is proved as an identity only (C09_virtual_teeth_identity), and the worm
+    wheel's Lewis factor is a table lookup by pressure angle (correspondence).  The three "is computable"
     flags and the ValueError of a contact stress whose mate lacks data are in Keys.v / Gears.contact_stress (see C17). *)
 From Coq Require Import ZArith QArith Reals Lra String List Bool PrimFloat.
 From GP Require Import ArithDef FloatUtil UnitsCore PyUnits RealArith Spec UnitsR QOps QOpsR Relations Gears GearsR.
@@ -73,6 +76,30 @@ Theorem C09_contact_stress_spur : forall (g mt : @gear RA) r (ft S m1 m2 fw e1 e
   qk S = KStress /\
   si S = Ok (131461 / 500000 * R_sqrt.sqrt ((2 * E1 * (E2 / (E1 + E2))) * (F / cos al / (sb * (sin al / 2 * d1 * (d2 / (d1 + d2))))))).
 Proof. exact contact_stress_spur_doc. Qed.
+(** contact stress of a helical gear: alpha_t = atan(tan 20deg / cos beta) for 20 deg, b / cos beta for b *)
+Theorem C09_contact_stress_helical : forall (g mt : @gear RA) r (ft S m1 m2 fw e1 e2 hx : qty RA) F sm1 sm2 sb E1 E2 sh,
+  g_kind g = EHelical -> (g_kind mt = ESpur \/ g_kind mt = EHelical) -> r <> None ->
+  g_module g = Some m1 -> g_module mt = Some m2 -> g_face g = Some fw -> g_emod g = Some e1 -> g_emod mt = Some e2 -> g_helix g = Some hx ->
+  qk m1 = KLength -> qk m2 = KLength -> qk fw = KLength -> qk e1 = KStress -> qk e2 = KStress -> qk ft = KForce ->
+  base_kind (qk hx) = KAngularPosition ->
+  si m1 = Ok sm1 -> si m2 = Ok sm2 -> si fw = Ok sb -> si e1 = Ok E1 -> si e2 = Ok E2 -> si ft = Ok F -> si hx = Ok sh ->
+  contact_stress g r (Some mt) ft = Ok S ->
+  let d1 := IZR (g_n g) * sm1 in let d2 := IZR (g_n mt) * sm2 in let al := atan (tan (20 * (PI / 180)) / cos sh) in
+  cos sh <> 0 /\ qk S = KStress /\
+  si S = Ok (131461 / 500000 * R_sqrt.sqrt ((2 * E1 * (E2 / (E1 + E2))) * (F / cos al / (sb / cos sh * (sin al / 2 * d1 * (d2 / (d1 + d2))))))).
+Proof. exact contact_stress_helical_doc. Qed.
+(** bending stress of a worm wheel: F_t / (p_n b_eff) / Y, p_n = pi d_w sin(beta_w) / z, b_eff = min(b, 0.67 d_w) *)
+Theorem C09_bending_stress_wheel : forall (g mt : @gear RA) role (ft S dw hw fw : qty RA) Y F sdw shw sb,
+  g_kind g = EWheel -> lewis_factor g = Ok Y ->
+  g_dref mt = Some dw -> g_helix mt = Some hw -> g_face g = Some fw ->
+  qk dw = KLength -> qk fw = KLength -> qk ft = KForce -> base_kind (qk hw) = KAngularPosition ->
+  si dw = Ok sdw -> si hw = Ok shw -> si fw = Ok sb -> si ft = Ok F ->
+  bending_stress g (Some role) (Some mt) ft = Ok S ->
+  exists lim lt, q_rmul (@k067 RA) dw = Ok lim /\ si lim = Ok (67 / 100 * sdw) /\ q_lt lim fw = Ok lt /\
+    qk S = KStress /\
+    si S = Ok (F / (PI * sdw * sin shw / IZR (g_n g) * (if lt then 67 / 100 * sdw else sb)) / Y).
+Proof. exact bending_stress_wheel_doc. Qed.
+
 Example C09_nonvacuous :
   PrimFloat.eqb (@lewis_interp (FA []) (@lewis_table (FA [])) 20%float) 0x1.47ae147ae147bp-2%float
   && PrimFloat.ltb 0x1.4cccccccccccdp-2%float (@lewis_interp (FA []) (@lewis_table (FA [])) 0x1.58p+4%float)
@@ -83,3 +110,5 @@ Print Assumptions C09_lewis_on_chord.
 Print Assumptions C09_tangential_force.
 Print Assumptions C09_table_increasing.
 Print Assumptions C09_contact_stress_spur.
+Print Assumptions C09_contact_stress_helical.
+Print Assumptions C09_bending_stress_wheel.
